@@ -28,7 +28,7 @@ ASSUMPTIONS = [
 ALPHA = ["a", " ", ":", "\r", "\n", "\x0b", "\x0c", "\x1c", "\x1d", "\x1e", "\x85", "\u2028", "\u2029"]
 MAXLEN = {"quick": 3, "thorough": 4}
 EXTRA = ["", ":", " ", "  x", ":x", "x:y", "data: x", "\r\n", "a\r\nb", "a\n\nb", "\n", "\na", "é", "中 文", "\U0001F600", "a\r", "a\r\n", "\r\r", "id: 5", "retry: 1"]
-MENU = [{"data": "one"}, {"event": "e", "data": "two\nlines"}, {"id": "7", "data": "a\u2028b"}, {"retry": 1500}, {"event": "only"}]
+MENU = [{"data": "one"}, {"event": "e", "data": "two\nlines"}, {"id": "7", "data": "a\u2028b"}, {"retry": 1500}, {"event": "only"}, {}]
 
 
 def expected_block(ev):
@@ -131,6 +131,7 @@ def judge_stream(events, body, charset):
         blocks = split_stream(body, charset)
     except Exception as e:  # noqa
         return ("undecodable", repr(e))
+    events = [e for e in events if e and e != {"data": ""}]  # an empty dictionary is no event; what follows it still is
     if len(blocks) != len(events):
         return ("block-count", f"{len(blocks)} blocks for {len(events)} events; body {body!r:.200}")
     for i, (ev, b) in enumerate(zip(events, blocks)):
@@ -171,7 +172,7 @@ def run_asgi(prefix, events):
 def asgi_sequences(r, k, tier="thorough"):
     seqs = [seq for n in range(0, 4) for seq in itertools.product(range(len(MENU)), repeat=n)]
     if tier == "quick":
-        seqs = [q for q in seqs if len(q) <= 2] + [(0, 1, 2), (3, 4, 0), (1, 1, 1), (4, 3, 2)]
+        seqs = [q for q in seqs if len(q) <= 2] + [(0, 1, 2), (3, 4, 0), (1, 1, 1), (4, 3, 2), (0, 5, 1), (5, 5, 2)]
     for seq in seqs[k::8]:
         events = [dict(MENU[i]) for i in seq]
         outcomes = set()
